@@ -172,6 +172,28 @@ func (c *pconn) SetDeadline(t time.Time) error      { return nil }
 func (c *pconn) SetReadDeadline(t time.Time) error  { return nil }
 func (c *pconn) SetWriteDeadline(t time.Time) error { return nil }
 
+// goroutines: runtime.NumGoroutine() can still count a goroutine that has left the
+// bubble (synctest.Wait no longer waits for it) but is not yet dead.  The count
+// only ever converges downwards to the true value, so when it is above what the
+// harness expects to see it is re-sampled for a bounded number of yields; what is
+// reported is always a real sample.  A leak that persisted once switches the
+// patience off for the rest of the run.
+var patience = 300000
+
+func goroutines(expect int) int {
+	n := runtime.NumGoroutine()
+	for i := 0; n > expect && i < patience; i++ {
+		runtime.Gosched()
+		if m := runtime.NumGoroutine(); m < n {
+			n = m
+		}
+	}
+	if n > expect && patience > 2000 {
+		patience = 2000
+	}
+	return n
+}
+
 // H: one case
 type H struct {
 	mu      sync.Mutex
@@ -184,6 +206,7 @@ type H struct {
 	hc      *impls.HandlerComponent
 	cfg     *session.SessionConfig
 	base    int
+	base0   int
 	cbH     int
 }
 
@@ -427,7 +450,17 @@ func (h *H) reset(next int, hasNext bool) string {
 	h.cfg = session.NewSessionConfig(nil)
 	h.cfg.Impl = &tee{h: h, real: pomelo.NewSessionsImpl(h.sc, h.css)}
 	synctest.Wait()
-	h.base = runtime.NumGoroutine()
+	if h.base0 == 0 {
+		// first case: the minimum over a bounded number of samples
+		h.base0 = runtime.NumGoroutine()
+		for i := 0; i < 20000; i++ {
+			runtime.Gosched()
+			if m := runtime.NumGoroutine(); m < h.base0 {
+				h.base0 = m
+			}
+		}
+	}
+	h.base = goroutines(h.base0)
 	return "ok"
 }
 
@@ -480,6 +513,18 @@ func (h *H) obs(k int, extra string) string {
 			sb.WriteString(extra)
 		}
 	}
+	// what the harness expects to be alive: 3 goroutines per connection that was not closed, the parked reader of a closed one
+	expect := h.base
+	for _, ck := range h.order {
+		c := h.conns[ck]
+		c.mu.Lock()
+		if !c.closed {
+			expect += 3
+		} else if c.rdState == 'h' || c.rdState == 'm' {
+			expect++
+		}
+		c.mu.Unlock()
+	}
 	var ids []int
 	h.css.VisitSession(func(fs *cs.FrontSession) { ids = append(ids, int(fs.GetNetId())) })
 	sort.Ints(ids)
@@ -487,7 +532,7 @@ func (h *H) obs(k int, extra string) string {
 	for i, id := range ids {
 		strs[i] = strconv.Itoa(id)
 	}
-	fmt.Fprintf(&sb, " | live=%s g=%d", strings.Join(strs, ","), runtime.NumGoroutine()-h.base)
+	fmt.Fprintf(&sb, " | live=%s g=%d", strings.Join(strs, ","), goroutines(expect)-h.base)
 	return sb.String()
 }
 
